@@ -152,7 +152,7 @@ def correspondence(pid, tier, seed):
         grid_broken = [b for b in rel['broken']]
     if pid in ('C11', 'C12'):
         grid_broken, grid_n = grid_correspondence(seed, 6 if tier == 'quick' else 40)
-    usable = [(s, r) for s, r in zip(scs, res) if not (r['err'] or '').startswith('Other:Timeout')]
+    usable = [(s, r) for s, r in zip(scs, res) if not (r['err'] or '').startswith('Other:Timeout') and not r.get('build_failed')]
     timeouts = len(scs) - len(usable)
     scs2 = [s for s, _ in usable]
     res2 = [r for _, r in usable]
